@@ -268,6 +268,11 @@ pub fn verify_readback(bytes: &[u8], scene: &Scene, run: &RunResult, ctx: &mut C
         // C01 part of the descriptor
         if proto_str(&exp.prototype) != proto_str(&got.prototype) {
             v.push(viol(c01, "prototype".into(), format!("pc{} prototype expected {} got {}", i, proto_str(&exp.prototype), proto_str(&got.prototype))));
+            if ctx.primary == "C04" {
+                // the declared data types (minimum/maximum/scale/offset) are metadata as well
+                let first = exp.prototype.iter().zip(got.prototype.iter()).find(|(a, b)| rec_str(a) != rec_str(b));
+                v.push(viol("C04", "field/pc.prototype".into(), format!("pc{} prototype record expected {:?} got {:?}", i, first.map(|f| rec_str(f.0)), first.map(|f| rec_str(f.1)))));
+            }
         }
         if got.records != exp.points.len() as u64 {
             v.push(viol(c01, "record-count".into(), format!("pc{} expected {} records, descriptor says {}", i, exp.points.len(), got.records)));
